@@ -284,6 +284,8 @@ class Gen:
             t = r.choice((35, 35, 34, 37, 39, 41, 40, 42, 43, 32, 33, 0, 1, 31, 255, 200))
             item = bytes(r.getrandbits(8) for _ in range(r.choice((0, 1, 2, 4)))).hex() or "-"
             return "embedarr %d %s %d %d" % (t, item, r.choice((0, 1, 2, 3, 7)), r.choice((0, 1, 1, 2, 3)))
+        if k < 0.77:
+            return "cpool %d %d %d" % (self.label_id(0.8), r.choice((1, 2, 4, 8, 8, 16, 32)), r.choice((0, 1, 2, 3)))
         if k < 0.82:
             return "elabel %d %d" % (self.label_id(0.7), r.choice((0, 4, 8, 1, 2, 3, 16, 5)))
         if k < 0.87:
@@ -433,6 +435,11 @@ def monitor_line(sess_hdr, op, d):
 def model_line(sess_hdr, op, d):
     """the op as the model driver reads it: the encoder's outcome of an `emit` is taken from the implementation"""
     w = op.split()
+    if w[0] == "cpool":
+        # the pool the harness builds: `count` distinct constants of one size, laid out in insertion order; alignment = the item size
+        isz, cnt = int(w[2]), min(int(w[3]), 16)
+        data = bytes((0xA0 + i + k) & 0xFF for i in range(cnt) for k in range(isz))
+        return "cpool %s %d %s" % (w[1], isz if cnt else 0, data.hex() or "-")
     if w[0] != "emit":
         return op
     refs = label_refs(w, sess_hdr[1] == "a64")
@@ -562,7 +569,10 @@ def judge(h, sessions, names):
 def bad_key(names, sess_hdr, op, d, verdict):
     w = op.split()
     clause = verdict.split()[1] if verdict.startswith("BAD ") else verdict
-    return "%s:%s:%s" % (clause, w[0], errname(names, d["ret"]))
+    opname = w[0]
+    if opname == "cpool" and clause == "atomic" and errname(names, d["ret"]) == "InvalidDisplacement":
+        opname = "bind"      # the bind() inside embed_const_pool: the class of finding C14-K1
+    return "%s:%s:%s" % (clause, opname, errname(names, d["ret"]))
 
 
 def shrink_session(h, names, session, upto, want_clause):
@@ -587,7 +597,7 @@ def run(res):
         "the encoder's accept/reject decision and its bytes are a parameter of the model (judged by C01/C02/C13); the harness feeds the real outcome",
         "allocation never fails (C15)",
         "snapshot = content digest of sections, labels (bound position or fixup chain), global fixups, relocations, address table, nodes",
-        "set_offset, embed_const_pool, comment and logging are not exercised",
+        "set_offset, comment and logging are not exercised",
         "'without undefined behaviour' = no ASan/UBSan report on the explored calls (tested, not proved)"]
     broken = []
     R = vlib.REPO
@@ -641,6 +651,8 @@ def run(res):
         ["new a64 asm rec 0", "emit %d 0 - 0 v11.0.3.-1 v11.1.3.-1 v11.40.3.-1" % add3, "emit %d 0 - 0 r6.1 r6.40" % cmp2],
         ["new a64 asm thr 0", "embed 01", "align 0 8", "align 1 8"],
         ["new a64 bld rec 0", "label", "bind 5", "bind 0", "bind 0"],
+        ["new x64 asm rec 1", "label", "label", "embed 01", "bind 0", "cpool 0 8 2", "cpool 7 8 2", "cpool 1 8 2", "cpool 1 4 1"],
+        ["new a64 bld thr 0", "label", "label", "embed 01", "bind 0", "cpool 0 8 2", "cpool 1 8 2"],
         ["new x64 bld thr 1", "label", "bind 0", "bind 0", "bind 9"],
     ]
     sessions = targeted + sessions
